@@ -244,18 +244,21 @@ def C17_translation_sound_complete_statement : Prop :=
       projected cfg.uf tmpl A.answers = projected cfg.uf tmpl D
 
 /-- **C17_translation_sound_complete (fragment).**  Fragment (`SimpleSetting`): ISO mode; rules
-    `name --> body` without arguments and push-back; bodies from `[]`, ground terminal lists,
-    non-terminals without arguments (not named like a control construct), `,`, `;`/`|`,
-    if-then-else, if-then, `\\+`, `!`, `{true}`, `{fail}`, `{!}` at any nesting, recursion allowed;
-    a ground input list; enough unification fuel for the terminal lists.
+    `name --> body` and `name, pushback --> body` without arguments, the push-back a list of ground
+    terminals; bodies from `[]`, ground terminal lists, non-terminals without arguments (not named
+    like a control construct), `,`, `;`/`|`, if-then-else, if-then, `\\+`, `!`, `{true}`, `{fail}`,
+    `{!}` at any nesting, recursion allowed; a ground input list; enough unification fuel for the
+    terminal lists.
 
     For every such grammar, body and input, with the SAME fuel `n` (nesting depth of non-terminal
     calls): the reference SLD evaluation (ISO cut semantics) of the translated body `Body(l, S)` in
     the translated grammar and the denotation ⟦b⟧ either both give no result (out of fuel /
-    undefined non-terminal), or both succeed, report the same pending cut, and the remainders `S`
-    of the SLD answers are exactly the remainders of the denotation, in the same order — in
-    particular the translated grammar recognises exactly the lists the denotation derives, with
-    the cuts, negations and conditions pruning exactly the same derivations.  The denotation binds
+    undefined non-terminal), or both succeed, report the same pending cut, have the same number of
+    answers and, answer by answer in the same order, the remainder variable `S` denotes under the
+    SLD answer substitution exactly the remainder list of the denotation (`Denotes`: every cell is
+    reached by dereferencing — after a push-back `S` is bound to `[pb… | S1]` with `S1` bound
+    further) — so the translated grammar recognises exactly the lists the denotation derives, with
+    cuts, negations, conditions and push-back having exactly the same effect.  The denotation binds
     nothing. -/
 theorem C17_translation_sound_complete_partial (cfg : Cfg) (gr : Grammar) (b : Body) (l : List Term)
     (h : SimpleSetting cfg gr b l) (n : Nat) :
@@ -263,14 +266,13 @@ theorem C17_translation_sound_complete_partial (cfg : Cfg) (gr : Grammar) (b : B
     match solve cfg.uf (programOf gr) n (b.tr (Term.list l) (.var 0) 1).1 st0,
           den cfg gr n true b st0 (Term.list l) with
     | .ok A, .ok D =>
-      A.cut = D.cut ∧
-      A.answers.map (fun st => walk st.σ (.var 0)) = D.answers.map (·.2) ∧
-      ∀ a ∈ D.answers, a.1 = st0
+      A.cut = D.cut ∧ A.answers.length = D.answers.length ∧
+      ∀ p ∈ A.answers.zip D.answers, ∃ r, p.2 = (st0, Term.list r) ∧ Denotes p.1.σ (.var 0) r
     | .error _, .error _ => True
     | _, _ => False := by
   intro st0
   have P : Pre st0 (Term.list l) l 0 1 (1 + b.nhid) :=
-    ⟨walk_nonvar _ _ (isVar_list l), h.input, by simp [st0], by simp [st0], by simp [st0]; omega,
+    ⟨Denotes.of_list _ l h.input, by simp [st0], by simp [st0], by simp [st0]; omega,
       Nat.le_refl _, by omega, by simp [st0]⟩
   have hsim := level_sim cfg h.iso h.uf gr h.rules n b h.body.1 h.body.2 true st0 st0 (Term.list l) l 0 1 P
   cases hx : solve cfg.uf (programOf gr) n (b.tr (Term.list l) (.var 0) 1).1 st0 with
@@ -284,13 +286,14 @@ theorem C17_translation_sound_complete_partial (cfg : Cfg) (gr : Grammar) (b : B
     | ok D =>
       simp only [hx, hy, Rel] at hsim
       obtain ⟨c1, hall⟩ := hsim
-      refine ⟨c1, ?_, ?_⟩
-      · exact hall.map_eq _ _ (fun st' a hr => by
-          obtain ⟨_, r, e2, _, hw, _⟩ := hr
-          rw [hw, e2])
-      · exact hall.forall_right _ (fun st' a hr => hr.1)
+      refine ⟨c1, hall.length_eq, fun p hp => ?_⟩
+      obtain ⟨e1, r, e2, hd, _⟩ := hall.zip p hp
+      exact ⟨r, Prod.ext e1 e2, hd⟩
 
 example : SimpleSetting { uf := 256, engine := false } exampleGrammar (.nt "a" []) [.atom "x", .atom "z"] :=
+  ⟨rfl, by decide, by decide, by decide, by decide⟩
+example : SimpleSetting { uf := 256, engine := false } exampleGrammar (.seq (.nt "c" []) (.terminals [.atom "y"]))
+    [.atom "x", .atom "x"] :=
   ⟨rfl, by decide, by decide, by decide, by decide⟩
 
 /-- the program the reference evaluation runs IS the model's expansion of the rules: for every
@@ -311,7 +314,8 @@ theorem C17_model_translation_sound_complete_partial (cfg : Cfg) (gr : Grammar) 
       match solve cfg.uf (programOf gr) n g { σ := [], next := n' },
             den cfg gr n true b { σ := [], next := n' } (Term.list l) with
       | .ok A, .ok D =>
-        A.cut = D.cut ∧ A.answers.map (fun st => walk st.σ (.var 0)) = D.answers.map (·.2)
+        A.cut = D.cut ∧ A.answers.length = D.answers.length ∧
+        ∀ p ∈ A.answers.zip D.answers, ∃ r, p.2.2 = Term.list r ∧ Denotes p.1.σ (.var 0) r
       | .error _, .error _ => True
       | _, _ => False := by
   refine ⟨(b.tr (Term.list l) (.var 0) 1).1, 1 + b.nhid, ?_, ?_⟩
@@ -323,6 +327,9 @@ theorem C17_model_translation_sound_complete_partial (cfg : Cfg) (gr : Grammar) 
     cases hx : solve cfg.uf (programOf gr) n (b.tr (Term.list l) (.var 0) 1).1 { σ := [], next := 1 + b.nhid } <;>
       cases hy : den cfg gr n true b { σ := [], next := 1 + b.nhid } (Term.list l) <;>
       simp_all
+    intro a bb t hp
+    obtain ⟨r, e, hd⟩ := this.2.2 a bb t hp
+    exact ⟨r, e.2, hd⟩
 
 /-- altIterator splits a clause body into exactly the ISO top-level disjuncts (an if-then-else is
     one disjunct) -/
